@@ -725,6 +725,138 @@ def c08_promote_classify(line, res):
     return ("own-store " if ops[0]["k"] == "s" else "foreign-store ") + ",".join(sorted(cls))
 
 
+# ---------------- redisneg (round 4): positive / error / get sequences on the redis tier (redis-only and memory + redis)
+def parse_nops(s):
+    ops = []
+    for tok in s.split(","):
+        p = tok.split(".")
+        op = dict(k=p[0], at=int(p[1]), key=int(p[2]))
+        if p[0] == "s":
+            op.update(rcode=0, ttls=[] if p[3] == "x" else [int(x) for x in p[3].split("_")])
+        elif p[0] == "e":
+            op.update(rcode=int(p[3]), ttls=[] if p[4] == "x" else [int(x) for x in p[4].split("_")])
+        ops.append(op)
+    return ops
+
+
+def c08_redisneg_oracle(line, res):
+    _LAST["redisneg"] = line
+    return c08_redisneg_oracle1(line, res)
+
+
+def c08_redisneg_oracle1(line, res):
+    """the property on what cacheCtl.Get served (whichever tier it came from): stored for this key; not at fetch +
+    lifetime(table) + 2 s or later; TTLs aged; and an ERROR response is never what is served while a positive answer
+    that was stored before it is still alive (it must not have displaced it, in memory or in redis)"""
+    if res.startswith("HARNESS-ERROR"):
+        return None
+    f = gens.fields(line)
+    ops = parse_nops(f["ops"])
+    toks = res.split(" ")
+    if len(toks) != len(ops):
+        return None
+    mx = int(f["maxttl"])
+    mem = f.get("mem", "1") == "1"
+    for i, (op, tok) in enumerate(zip(ops, toks)):
+        if op["k"] != "g" or not tok.startswith("H"):
+            continue
+        src = int(tok[1:].split(":")[0])
+        if not (0 <= src < i) or ops[src]["k"] not in ("s", "e") or ops[src]["key"] != op["key"]:
+            return "get #%d served a message nobody stored for this key (%s)" % (i, tok)
+        so = ops[src]
+        L = prop_lifetime_ms(mx, so["rcode"], so["ttls"])
+        late = op["at"] - so["at"] - L
+        if late - SLACK >= 2000:
+            return "get #%d at +%d ms served the answer of op #%d %d ms after the end of its lifetime (%d ms; 2 s allowance)" % (
+                i, op["at"], src, late, L)
+        got = [int(x) for x in tok.split(":")[1].split("_")] if tok.split(":")[1] else []
+        if len(got) != len(so["ttls"]):
+            return "get #%d: record count differs from the stored response" % i
+        dmin = max(0, (op["at"] - so["at"] - SLACK) // 1000)
+        for t0, t1 in zip(so["ttls"], got):
+            if t1 > max(1, t0 - dmin):
+                return "get #%d: served TTL %d > max 1 (%d - %d whole seconds since the fetch)" % (i, t1, t0, dmin)
+        if so["rcode"] != 0:
+            for j in range(src - 1, -1, -1):
+                po = ops[j]
+                if po["key"] != op["key"]:
+                    continue
+                if mem and po["k"] == "x":
+                    break        # the memory copy was lost before the error arrived: the memory tier legitimately takes it
+                if po["k"] == "s":
+                    Lp = prop_lifetime_ms(mx, 0, po["ttls"])
+                    if po["at"] + Lp >= so["at"] + 300 + SLACK:
+                        return ("get #%d was served the error response of op #%d (rcode %d) although the positive answer of "
+                                "op #%d was alive when that error was stored (%d ms of its %d ms lifetime left): an error "
+                                "response displaced a live positive entry" % (i, src, so["rcode"], j,
+                                                                           po["at"] + Lp - so["at"], Lp))
+                    break
+    return None
+
+
+def c08_redisneg_gen(rng, tier):
+    """every error rcode 1..15 (with and without records) against a live positive answer, in the redis-only configuration
+    and in memory + redis with the memory copy dropped AFTER the error was stored (so that the redis copy is what is
+    read); the converse orders (error first, positive replaces it, a second error is refused; error after the positive
+    expired is accepted); two keys.  Real clock, <= 4.2 s per case, run in parallel."""
+    out = []
+    n = budget(tier, 42, 330)
+    rcodes = list(range(1, 16))
+    for c in range(n):
+        mem = c % 2
+        rc = rcodes[(c // 2) % 15]
+        rc2 = rng.choice(rcodes)
+        ettl = rng.choice(["x", "x", "7", "2_300"])
+        P = rng.choice([5, 6, 60, 300])
+        shape = 0 if c < 30 or (c // 30) % 2 == 0 and c >= 60 else 1 + ((c - 30) // 2) % 3   # first 30: every rcode x both configurations, shape 0
+        ops = []
+        if shape == 0:      # error onto a live positive
+            ops += ["s.0.1.%d_%d" % (P, P + 5), "e.%d.1.%d.%s" % (rng.choice([300, 450, 700]), rc, ettl)]
+            if rng.random() < 0.5:
+                ops.append("e.850.1.%d.x" % rc2)
+            if mem:
+                ops.append("x.1000.1")
+            ops += ["g.1250.1", "g.%d.1" % rng.choice([1700, 2300, 3250])]
+        elif shape == 1:    # error first; the positive replaces it; a second error is refused
+            ops += ["e.0.1.%d.%s" % (rc, ettl), "g.300.1", "s.600.1.%d" % P]
+            if mem:
+                ops.append("x.800.1")
+            ops += ["g.1000.1", "e.1300.1.%d.x" % rc2]
+            if mem:
+                ops.append("x.1500.1")
+            ops += ["g.1750.1", "g.2300.1"]
+        elif shape == 2:    # the positive has expired (lifetime 1 s): the error is accepted (redis: exactly; memory: otter)
+            ops += ["s.0.1.1_9", "g.300.1", "e.%d.1.%d.%s" % (rng.choice([1400, 1700, 2300]), rc if rc != 2 else 3, ettl),
+                    "g.2700.1", "g.3600.1"]
+        else:               # two keys: the error for key 2 must not touch key 1 and vice versa
+            ops += ["s.0.1.%d" % P, "e.250.2.%d.%s" % (rc, ettl), "e.500.1.%d.x" % rc2, "s.750.2.%d" % P]
+            if mem:
+                ops += ["x.1000.1", "x.1000.2"]
+                ops[-1] = "x.1050.2"
+            ops += ["g.1300.1", "g.1450.2", "g.2300.1"]
+        out.append("rn%d maxttl=0 mem=%d ops=%s" % (c, mem, ",".join(ops)))
+    return out
+
+
+def c08_redisneg_classify(line, res):
+    f = gens.fields(line)
+    ops = parse_nops(f["ops"])
+    toks = res.split(" ")
+    cfg = "memory+redis" if f.get("mem", "1") == "1" else "redis-only"
+    if len(toks) != len(ops):
+        return cfg + " " + res.split(" ")[0][:20]
+    kinds = set()
+    for op, tok in zip(ops, toks):
+        if op["k"] == "g":
+            if tok.startswith("H"):
+                src = int(tok[1:].split(":")[0])
+                kinds.add("served-positive" if ops[src].get("rcode", 0) == 0 else "served-error")
+            else:
+                kinds.add("miss")
+    first_err = next((o["rcode"] for o in ops if o["k"] == "e"), 0)
+    return "%s rcode%d %s" % (cfg, first_err, ",".join(sorted(kinds)))
+
+
 # ---------------- routerhist (real router, real upstream over TCP, scripted upstream server)
 BEH_L = dict(nx=30000, nd=30000, sf=1000, rf=5000)
 
@@ -886,6 +1018,9 @@ PROPS["C08"] = dict(
              nontrivial=lambda l, r: "H" in r or "M" in r, timeout=600),
         dict(name="promote", gen=c08_promote_gen, oracle=c08_promote_oracle, classify=c08_promote_classify,
              compare=retrying_compare("promote", c08_promote_oracle1),
+             nontrivial=lambda l, r: "H" in r, timeout=900),
+        dict(name="redisneg", gen=c08_redisneg_gen, oracle=c08_redisneg_oracle, classify=c08_redisneg_classify,
+             compare=retrying_compare("redisneg", c08_redisneg_oracle1),
              nontrivial=lambda l, r: "H" in r, timeout=900),
     ],
     rule="policy: the real initCache + cacheCtl.Store on a real MemoryCache, read back with cacheCtl.Get: every rcode 0..15 "
